@@ -670,4 +670,86 @@ inline Window salt_window(const Bytes &S) {
   return w;
 }
 
+// ---- documented per-method grammar violations (C05 "malformed parameters") ----------------
+// Returns a reason when crypt(5)'s format for the method the tag selects rules the setting out;
+// "" when the documentation leaves it open (lenient parsers may then accept or reject).
+inline std::string method_must_fail(const Bytes &S) {
+  Method m = classify_tag(S);
+  auto digits_ok = [&](size_t pos, unsigned long long lo, unsigned long long hi, size_t &end) -> bool {
+    // [1-9][0-9]* within [lo, hi], followed by '$'
+    if (pos >= S.size() || S[pos] < '1' || S[pos] > '9') return false;
+    unsigned long long v = 0;
+    size_t i = pos;
+    while (i < S.size() && S[i] >= '0' && S[i] <= '9') {
+      if (v > (~0ULL) / 10 - 1) return false;
+      v = v * 10 + (unsigned)(S[i] - '0');
+      i++;
+    }
+    end = i;
+    if (i >= S.size() || S[i] != '$') return false;
+    return v >= lo && v <= hi;
+  };
+  switch (m) {
+    case M_BSDI:
+      if (S.size() < 9) return "bsdicrypt setting shorter than 9 characters";
+      for (size_t i = 1; i < 9; i++)
+        if (!is_a64((unsigned char)S[i])) return "bsdicrypt count/salt character outside ./0-9A-Za-z";
+      return "";
+    case M_BF_A: case M_BF_B: case M_BF_X: case M_BF_Y: {
+      if (S.size() < 29) return "bcrypt setting shorter than 29 characters";
+      if (S[4] < '0' || S[4] > '9' || S[5] < '0' || S[5] > '9' || S[6] != '$') return "bcrypt cost field is not two digits and '$'";
+      int cost = (S[4] - '0') * 10 + (S[5] - '0');
+      if (cost < 4 || cost > 31) return "bcrypt cost outside 04..31";
+      for (size_t i = 7; i < 29; i++)
+        if (bf64val((unsigned char)S[i]) < 0) return "bcrypt salt character outside its alphabet";
+      return "";
+    }
+    case M_SHA256: case M_SHA512:
+      if (S.compare(3, 7, "rounds=") == 0) {
+        size_t e;
+        if (!digits_ok(10, 1000, 999999999ULL, e)) return "sha2crypt rounds field not [1-9][0-9]* in 1000..999999999 followed by '$'";
+      }
+      return "";
+    case M_SHA1:
+      if (S.size() < 6 || S[5] != '$') return "sha1crypt tag not followed by '$'";
+      return "";
+    case M_SUNMD5: {
+      if (S.size() < 5 || (S[4] != '$' && S[4] != ',')) return "sunmd5 tag not followed by '$' or ','";
+      size_t pos = 5;
+      if (S.compare(5, 7, "rounds=") == 0) {
+        size_t e;
+        if (!digits_ok(12, 1, 0xffffffffULL, e)) return "sunmd5 rounds field not [1-9][0-9]* (32 bit) followed by '$'";
+        pos = e + 1;
+      }
+      while (pos < S.size() && is_a64((unsigned char)S[pos])) pos++;
+      if (pos < S.size() && S[pos] != '$') return "sunmd5 salt character outside ./0-9A-Za-z";
+      return "";
+    }
+    case M_SCRYPT: {
+      if (S.size() < 14) return "scrypt setting shorter than its parameter field";
+      for (size_t i = 3; i < 14; i++)
+        if (!is_a64((unsigned char)S[i])) return "scrypt parameter character outside ./0-9A-Za-z";
+      if (S[3] == '.') return "scrypt N = 2^0";
+      if (S.size() > 339) return "scrypt setting too long for the output field";
+      for (size_t i = 14; i < S.size(); i++) {
+        unsigned char c = (unsigned char)S[i];
+        if (is_a64(c) || c == '$') continue;
+        if (S[i - 1] == '$') break;  // documented: text after a '$' that ends the salt does not matter
+        return "scrypt salt character outside ./0-9A-Za-z$";
+      }
+      return "";
+    }
+    case M_YESCRYPT: case M_GOST: {
+      size_t t = strlen(METHOD_TAG[m]);
+      if (S.size() > 339) return "yescrypt setting too long for the output field";
+      size_t p1 = S.find('$', t);
+      if (p1 == Bytes::npos || p1 == t) return "yescrypt parameter field missing";
+      for (size_t i = t; i < p1; i++)
+        if (!is_a64((unsigned char)S[i])) return "yescrypt parameter character outside ./0-9A-Za-z";
+      return "";
+    }
+    default: return "";
+  }
+}
+
 }  // namespace vf
